@@ -7,6 +7,12 @@ validator (region attributes, edge and vertex markers)."""
 import os, json, math
 import vlib, femgen, meshlib, geomgen, translate_markers
 from props import c01
+from props import ext as extmod
+
+# node / element renumbering between LoadMesh and assembly (FEASolver::Cuthill, SortNodes, SortElements): model Renumber.v,
+# theorems Properties_C02_renumber.v (+ C07 / C08 / C09 parts in their own files), harness h_cuthill.cpp (props/xcm.py)
+EXTENSIONS = ["xcm"]
+EXTRA_PROPERTY_FILES = ["C02_renumber"]
 
 LEVEL = "proof"
 COQ_MODULES = ["Marker", "MeshCheck"]
@@ -439,6 +445,7 @@ def correspond(ctx):
     cov["input_distribution"] = feats
     cov["samples"] = [dict(kind=k, node_markers=mp, edge_markers=ms) for (k, mp, ms) in exp_list[:3]]
     cov["marker_constants"] = getattr(ctx, "marker_consts", {})
+    dis += extmod.run(ctx, EXTENSIONS)
     return dis
 
 
